@@ -1,10 +1,11 @@
 (* Link to the discretisation group (property C08, coq/disc): DiscreteMatrix::scale of the
    concrete scanner model is the same binary32 expression as LMDisc's [scale_with f32_ops],
    so its monotonicity theorem (C08_scale_monotone_f32: scale is monotone whenever the sign
-   bit of the factor is clear) and the transfer of C08's main clause to thresholds apply. *)
+   bit of the factor is clear - which, since the repair of F14b, is always the case:
+   DiscF32Sign.div_abs_sign) and the transfer of C08's main clause to thresholds apply. *)
 From Coq Require Import ZArith Arith Lia.
 From LMBase Require Import Res IEEE.
-From LMDisc Require DiscModel DiscImplCheck DiscF32Mono.
+From LMDisc Require DiscModel DiscImplCheck DiscF32Mono DiscF32Sign.
 From Coq Require Import List Bool.
 From LMScan Require Import ScanModel ScanConcrete ConcreteProofs.
 Import ListNotations.
@@ -31,13 +32,33 @@ Proof.
   intros Hf Hm Hg. pose proof (c_scale_mono dm real t Hf Hg). lia.
 Qed.
 
-(* ---------- the instance ConcreteProofs.Ex meets C08's two conditions ---------- *)
+(* since the repair of F14b (factor = |max_score - offset| / 255) the sign bit of the factor
+   is clear for every matrix: to_discrete never produces -0.0 or a negative factor *)
+Lemma to_discrete_sign_clear (K : nat) (pssm : list (list F32.t)) (dm : dmt) :
+  to_discrete K pssm = Ok dm -> factor_sign_clear dm = true.
+Proof.
+  unfold to_discrete. intros H.
+  destruct (rmapM (row_max K) pssm) as [maxs| | |]; simpl in H; try discriminate.
+  destruct (rmapM (row_min K) pssm) as [offs| | |]; simpl in H; try discriminate.
+  inversion H; subst. unfold factor_sign_clear, DiscImplCheck.factor_sign_clear, IEEE.sign. simpl.
+  unfold f255. rewrite DiscF32Sign.div_abs_sign. reflexivity.
+Qed.
+
+Lemma env_sign_clear K C pssm sq wrap v : c_env K C pssm sq wrap = Ok v -> factor_sign_clear (ce_dm v) = true.
+Proof.
+  unfold c_env. intros H. destruct (to_discrete K pssm) as [dm| | |] eqn:E; simpl in H; try discriminate.
+  inversion H; subst; simpl. exact (to_discrete_sign_clear K pssm dm E).
+Qed.
+
+(* hence scale is monotone for every environment Scanner::new builds *)
+Lemma env_scale_mono K C pssm sq wrap v x t :
+  c_env K C pssm sq wrap = Ok v -> F32.ge x t = true -> ce_scale v t <= ce_scale v x.
+Proof. intros Henv Hg. exact (c_scale_mono (ce_dm v) x t (env_sign_clear K C pssm sq wrap v Henv) Hg). Qed.
+
+(* ---------- the instance ConcreteProofs.Ex meets C08's main clause ---------- *)
 
 Definition chk_main (v : cenv) : bool :=
   forallb (fun i => c_scale (ce_dm v) (cscore v i) <=? cdscore v i) (seq 0 (ce_Lm v)).
-
-Lemma Ex_sign_clear : factor_sign_clear (ce_dm Ex.env) = true.
-Proof. vm_compute. reflexivity. Qed.
 
 Lemma Ex_main : forall i, i + length Ex.pssm <= length Ex.sq ->
   c_scale (ce_dm Ex.env) (score_def 5 Ex.sq Ex.pssm i) <= dscore_def 5 Ex.sq (d_data (ce_dm Ex.env)) i.
